@@ -41,6 +41,10 @@ def in_item(d, rng=None):
     # blanks narrower than that width (seed C11-7)
     m = rng.choice(["- ", "- ", "1.  ", "10. ", "   * ", "-    "[:rng.choice([2, 3, 4, 5])]]) if rng else "- "
     w = len(m)
+    # an ordered list whose numbers get a digit wider: the content column belongs to the item, not to the list (seed C11-9)
+    if rng and rng.random() < 0.15:
+        a, b = rng.choice([("9. ", "10. "), ("99) ", "100) "), ("9.  ", "10. "), ("8. ", "9. ")])
+        m, w = a + "w\n" + b, len(b)
 
     def blank():
         return " " * rng.randrange(0, w) if rng and rng.random() < 0.6 else ""
@@ -115,9 +119,23 @@ def cases(rng, tier, Case):
             # what precedes the span: plain text, an escaped backtick right before the opener, or an earlier
             # paragraph with an unmatched backtick run of the same length (closer caches must not leak)
             pre = rng.choice(["a ", "a ", "a ", "\\`", "x \\`", "q " + "`" * k + " w\n\na ", "o" + "`" * k + "c " + "`" * (k + 1) + "\n\nz "])
+            if rng.random() < 0.04:
+                # many look-ahead tokens earlier in the same paragraph: nothing the label scans count may leak (seed C11-10)
+                nlab = rng.choice([101, 130, 260])
+                pre = rng.choice(["[t](u) " * nlab, "[see " + ", ".join("#%d" % i for i in range(nlab)) + "] ", "[" * nlab + " ", "![i](s) " * nlab])
             d = pre + "`" * k + " " + t + " " + "`" * k
             want = t.replace("\n", " ")
             res.append(Case("parse %s 100 TR %s" % (cfg, hx(wrapf(d))), "span-" + ctx, {"kind": "CodeInline", "want": hx(want), "src": hx(t)}))
+    # a span whose opener stands inside a bracketed label and whose payload holds the "](u)" that would close the link:
+    # the span wins.  With an unmatched backtick run right before the "[" the look-ahead of the link rule asks the
+    # code-span rule, which looks at the text node pushed before the look-ahead began (known finding F15).
+    for t in ("](u) b", "x](u)", "] [y](u) z", "](<u>) *c*"):
+        for k in (1, 2):
+            for stale in (False, True):
+                for lead in ("q ", "", "*e* "):
+                    pre = lead + (("`" * (k + 1)) if stale else "x ") + "[a "
+                    d = pre + "`" * k + t + "`" * k
+                    res.append(Case("parse CsW 100 TR %s" % hx(d), "span-bracket", {"kind": "CodeInline", "want": hx(t), "src": hx(t), "stale": stale}))
     # unit cases for the tab-stop arithmetic
     for _ in range(300 if tier == "quick" else 20000):
         ws = "".join(rng.choice([" ", " ", "\t", "\t", ">", "é"]) for _ in range(rng.choice([0, 1, 2, 3, 5, 8])))
@@ -151,6 +169,8 @@ def oracle(case, io, mo):
         spans = [n for n in nodes if n.kind == "CodeInline"]
         if len(spans) != 1 or len(spans[0].children) != 1 or text_arg(spans[0].children[0]) != want:
             got = [text_arg(c) for s in spans for c in s.children]
+            if p.get("stale") and not spans and any(n.kind == "Link" for n in nodes):
+                return "STALEOPEN the link rule's look-ahead does not see the code span %r after an unmatched backtick run" % want[:60]
             return "code span content %r differs from the payload %r" % (got[:2], want[:60])
         if b"<code>" + esc + b"</code>" not in html:
             return "code span payload does not reappear escaped in the HTML"
@@ -171,4 +191,4 @@ def nontrivial(case, io):
 
 
 def known_match(k, case, io, msg):
-    return False
+    return k.get("class") == "stale-trailing-lookahead" and msg.startswith("STALEOPEN ")
